@@ -8,10 +8,12 @@ import (
 	"errors"
 	"fmt"
 	"io"
+	"os"
 	"sort"
 	"strings"
 	"sync"
 	"sync/atomic"
+	"syscall"
 
 	"filippo.io/age"
 	"filippo.io/age/zverif/mon"
@@ -21,8 +23,8 @@ import (
 // edited copy of a 19 MiB file costs nothing to build. fill=false returns at
 // segment borders (short reads at the edit position), fill=true fills the
 // caller's buffer across them (like a file would).
-// withEOF returns the last piece together with io.EOF (as io.Reader allows);
-// max > 0 bounds the size of every piece.
+// withEOF returns the last piece together with the end report (as io.Reader
+// allows); max > 0 bounds the size of every piece. The end report is sticky.
 type segReader struct {
 	segs    [][]byte
 	i       int
@@ -30,6 +32,14 @@ type segReader struct {
 	fill    bool
 	withEOF bool
 	max     int
+	endErr  error // what the source reports at (and for ever after) its end; nil = io.EOF
+}
+
+func (s *segReader) end() error {
+	if s.endErr != nil {
+		return s.endErr
+	}
+	return io.EOF
 }
 
 func (s *segReader) Read(p []byte) (int, error) {
@@ -53,12 +63,12 @@ func (s *segReader) Read(p []byte) (int, error) {
 		}
 	}
 	if n == 0 {
-		return 0, io.EOF
+		return 0, s.end()
 	}
 	if s.withEOF {
 		s.skipEmpty()
 		if s.i >= len(s.segs) {
-			return n, io.EOF
+			return n, s.end()
 		}
 	}
 	return n, nil
@@ -80,24 +90,98 @@ var (
 	allKinds   = append(append([]string{}, plainKinds...), eofKinds...)
 )
 
-func openSource(segs [][]byte, kind string) io.Reader {
-	switch kind {
-	case "segments":
-		return &segReader{segs: segs}
-	case "filled":
-		return &segReader{segs: segs, fill: true}
-	case "segments+eof":
-		return &segReader{segs: segs, withEOF: true}
-	case "filled+eof":
-		return &segReader{segs: segs, fill: true, withEOF: true}
-	case "bufio4096": // a caller-supplied *bufio.Reader is used by format.Parse as is
-		return bufio.NewReaderSize(&segReader{segs: segs, fill: true}, 4096)
-	case "bufio4096+eof":
-		return bufio.NewReaderSize(&segReader{segs: segs, fill: true, withEOF: true}, 4096)
-	case "1byte+eof":
-		return &segReader{segs: segs, fill: true, withEOF: true, max: 1}
+// End reports: how the source says that it has no more bytes. A truncated
+// file may come from a source that knows it ended abnormally and says so with
+// an error that wraps io.EOF or is something else entirely; only the bare
+// io.EOF sentinel is a graceful end. A source kind is "<base>[:<end>]"; the
+// "+eof" bases deliver the end report together with the last bytes, the others
+// in a separate call.
+var nonBareEnds = []string{"wrap1", "wrap2", "ueof", "ueof-wrapped", "is-eof", "join-eof", "custom", "deadline", "eagain", "net-timeout"}
+
+var allEnds = append([]string{"eof"}, nonBareEnds...)
+
+type isEOFError struct{}
+
+func (isEOFError) Error() string {
+	return "verif: transport closed (custom error whose Is(io.EOF) is true)"
+}
+func (isEOFError) Is(target error) bool { return target == io.EOF }
+
+type netStyleError struct{}
+
+func (netStyleError) Error() string   { return "verif: read tcp 192.0.2.1:443: i/o timeout" }
+func (netStyleError) Timeout() bool   { return true }
+func (netStyleError) Temporary() bool { return true }
+
+func endError(name string) error {
+	switch name {
+	case "", "eof":
+		return io.EOF
+	case "wrap1":
+		return fmt.Errorf("object backup.age: short read: %w", io.EOF)
+	case "wrap2":
+		return fmt.Errorf("fetch: %w", fmt.Errorf("body: %w", io.EOF))
+	case "ueof":
+		return io.ErrUnexpectedEOF
+	case "ueof-wrapped":
+		return fmt.Errorf("short body: %w", io.ErrUnexpectedEOF)
+	case "is-eof":
+		return isEOFError{}
+	case "join-eof":
+		return errors.Join(errors.New("verif: connection reset"), io.EOF)
+	case "custom":
+		return mon.ErrInjected
+	case "deadline":
+		return &os.PathError{Op: "read", Path: "/dev/stdin", Err: os.ErrDeadlineExceeded}
+	case "eagain":
+		return &os.PathError{Op: "read", Path: "/dev/stdin", Err: syscall.EAGAIN}
+	case "net-timeout":
+		return netStyleError{}
 	}
-	panic("c02: unknown source kind " + kind)
+	panic("c02: unknown end report " + name)
+}
+
+// splitKind cuts "<base>[:<end>]"; end is "eof" when absent.
+func splitKind(kind string) (base, end string) {
+	if i := strings.IndexByte(kind, ':'); i >= 0 {
+		return kind[:i], kind[i+1:]
+	}
+	return kind, "eof"
+}
+
+func endTiming(base string) string {
+	if strings.HasSuffix(base, "+eof") {
+		return "with-last-bytes"
+	}
+	return "separate-call"
+}
+
+func openSource(segs [][]byte, kind string) io.Reader {
+	base, end := splitKind(kind)
+	sr := &segReader{segs: segs}
+	if end != "eof" {
+		sr.endErr = endError(end)
+	}
+	switch base {
+	case "segments":
+	case "filled":
+		sr.fill = true
+	case "segments+eof":
+		sr.withEOF = true
+	case "filled+eof":
+		sr.fill, sr.withEOF = true, true
+	case "bufio4096": // a caller-supplied *bufio.Reader is used by format.Parse as is
+		sr.fill = true
+		return bufio.NewReaderSize(sr, 4096)
+	case "bufio4096+eof":
+		sr.fill, sr.withEOF = true, true
+		return bufio.NewReaderSize(sr, 4096)
+	case "1byte+eof":
+		sr.fill, sr.withEOF, sr.max = true, true, 1
+	default:
+		panic("c02: unknown source kind " + kind)
+	}
+	return sr
 }
 
 func segLen(segs [][]byte) int {
@@ -318,6 +402,7 @@ type monitor struct {
 	maxPrefix atomic.Int64 // longest plaintext prefix released before an error
 
 	exhaustive map[string]int // finite sub-spaces enumerated completely -> number of cases
+	endCover   map[string]int // end report / timing / truncation position -> cases run
 	accepted   []acceptedRec
 }
 
@@ -361,6 +446,8 @@ type edited struct {
 	segs  [][]byte
 	via   string // source kind the bytes are delivered through
 	long  bool   // sequence of maximal length in the thorough tier: one delivery only (cost)
+	isCut bool   // the edit is a truncation of the file at offset cut
+	cut   int
 }
 
 // with fixes the delivery: via is "<source kind>,<consumption mode>".
@@ -385,8 +472,11 @@ func (e *edited) usable(kinds []string) []string {
 	var out []string
 	seen := map[string]bool{}
 	for _, k := range kinds {
-		if k == "1byte+eof" && !small {
+		if base, end := splitKind(k); base == "1byte+eof" && !small {
 			k = "filled+eof"
+			if end != "eof" {
+				k += ":" + end
+			}
 		}
 		if !seen[k] {
 			seen[k] = true
@@ -401,32 +491,87 @@ func (e *edited) key(kind string) string {
 }
 
 // Deliveries. Classes that add or remove trailing bytes (and the valid file
-// itself) go through every source kind x every consumption mode; every other
-// case through one combination chosen by a hash of the case.
+// itself) go through every source kind x every consumption mode; truncations
+// at the places the vacuity guard names additionally through every end report
+// x its timing; every other case through one combination chosen by a hash of
+// the case.
 func (e *edited) kinds() []string {
-	switch e.class {
-	case "extend-small", "extend", "big-extend", "sequence-own+foreign", "unmodified", "trunc-at-boundary":
+	product := func(kinds, modes []string) []string {
 		var out []string
-		for _, k := range e.usable(allKinds) {
-			for _, c := range consumeModes {
+		for _, k := range e.usable(kinds) {
+			for _, c := range modes {
 				out = append(out, k+","+c)
 			}
 		}
 		return out
 	}
-	return e.hashedKind()
+	three := []string{"read", "copy", "readall"}
+	switch e.class {
+	case "extend-small", "extend", "big-extend", "sequence-own+foreign", "unmodified":
+		return product(allKinds, consumeModes)
+	case "trunc-at-boundary":
+		return append(product(allKinds, consumeModes), e.endProduct(three)...)
+	case "trunc-mid-chunk", "trunc-inside-final":
+		return append(product([]string{"filled", "filled+eof"}, three), e.endProduct(three)...)
+	case "trunc-small":
+		return append(e.hashedKind(false), e.endProduct(nil)...)
+	}
+	return e.hashedKind(true)
 }
 
-func (e *edited) hashedKind() []string {
+// endProduct: every non-bare end report, delivered in a separate call and
+// together with the last bytes, under each of the given consumption modes
+// (nil: one hashed mode per combination).
+func (e *edited) endProduct(modes []string) []string {
+	var out []string
+	for i, end := range nonBareEnds {
+		h := hash32(fmt.Sprintf("end/%s/%s/%s/%d", e.base.name, e.class, e.edit, i))
+		for _, base := range e.usable([]string{plainKinds[h%uint32(len(plainKinds))], eofKinds[(h>>8)%uint32(len(eofKinds))]}) {
+			ms := modes
+			if ms == nil {
+				ms = []string{consumeModes[(h>>16)%uint32(len(consumeModes))]}
+				h = h*31 + 7
+			}
+			for _, c := range ms {
+				out = append(out, base+":"+end+","+c)
+			}
+		}
+	}
+	return out
+}
+
+// truncating classes end before the payload is complete: there the end report
+// of the source is what the stream reader sees instead of the missing bytes.
+func (e *edited) truncating() bool {
+	switch {
+	case strings.HasPrefix(e.class, "trunc"), strings.HasPrefix(e.class, "big-trunc"),
+		e.class == "drop", e.class == "big-drop", e.class == "crash-point":
+		return true
+	}
+	return false
+}
+
+// hashedKind picks one (source kind, consumption mode). With ends allowed
+// (oracle a only: a model-accepted file must not be spoilt by a source error)
+// half of the truncating cases and one in eight of the others get a non-bare
+// end report.
+func (e *edited) hashedKind(ends bool) []string {
 	h := hash32("kind/" + e.base.name + "/" + e.class + "/" + e.edit)
-	k := e.usable([]string{allKinds[h%uint32(len(allKinds))]})[0]
+	k := allKinds[h%uint32(len(allKinds))]
+	if ends {
+		h2 := hash32("endkind/" + e.base.name + "/" + e.class + "/" + e.edit)
+		if (e.truncating() && h2&1 == 1) || (!e.truncating() && h2%8 == 0) {
+			k += ":" + nonBareEnds[(h2>>8)%uint32(len(nonBareEnds))]
+		}
+	}
+	k = e.usable([]string{k})[0]
 	// Read loops twice as often as each of the other modes
 	c := []string{"read", "read", "copy", "readall", "read+copy"}[(h>>8)%5]
 	return []string{k + "," + c}
 }
 
 // kindPair is the delivery list of key-crafted sequences: quick tier = a Read
-// loop and an io.Copy, each through a hashed source kind; thorough tier = a
+// loop or an io.Copy through a hashed source kind; thorough tier = a
 // plain source with a Read loop, a data-with-EOF source with io.Copy, and a
 // hashed source with io.ReadAll / Read-then-Copy; the longest sequences of the
 // thorough tier get one hashed delivery (cost).
@@ -436,9 +581,14 @@ func (e *edited) kindPair() []string {
 	any2 := e.usable([]string{allKinds[(h>>8)%uint32(len(allKinds))]})[0]
 	switch {
 	case e.long:
-		return e.hashedKind()
+		return e.hashedKind(false)
 	case !pairDelivery:
-		return []string{any1 + ",read", any2 + ",copy"}
+		// quick: one delivery, a Read loop or io.Copy with equal weight (the
+		// trailing-data and truncation classes get the full products)
+		if (h>>28)&1 == 0 {
+			return []string{any1 + ",read"}
+		}
+		return []string{any2 + ",copy"}
 	}
 	plain := plainKinds[(h>>16)%uint32(len(plainKinds))]
 	eof := e.usable([]string{eofKinds[(h>>20)%uint32(len(eofKinds))]})[0]
@@ -508,8 +658,60 @@ func (m *monitor) decrypt(e *edited, want []byte) *outcome {
 
 func (m *monitor) tabDelivery(e *edited) {
 	kind, mode := e.delivery()
-	m.r.Tab("source_kind", kind)
+	base, end := splitKind(kind)
+	m.r.Tab("source_kind", base)
+	m.r.Tab("source_end_report", end+"/"+endTiming(base))
 	m.r.Tab("consumption_mode", mode)
+	if e.isCut {
+		cell := end + "/" + endTiming(base) + "/" + e.base.cutPosition(e.cut)
+		m.r.Tab("end_report_x_truncation_position", cell)
+		m.mu.Lock()
+		if m.endCover == nil {
+			m.endCover = map[string]int{}
+		}
+		m.endCover[cell]++
+		m.mu.Unlock()
+	}
+}
+
+// cutPosition classifies a truncation offset for the vacuity guard.
+func (b *base) cutPosition(cut int) string {
+	p0 := b.hdrLen + nonceLen
+	switch {
+	case cut < p0:
+		return "in-nonce"
+	case cut == p0:
+		return "right-after-nonce"
+	}
+	k, rel := (cut-p0)/encChunk, (cut-p0)%encChunk
+	switch {
+	case rel == 0:
+		return "chunk-boundary"
+	case k >= len(b.chunks)-1:
+		return "inside-final-chunk"
+	}
+	return "mid-chunk"
+}
+
+// checkEndCoverage is the vacuity guard of the end-report dimension: every end
+// report x timing must have been run on truncations at a chunk boundary, in
+// the middle of a chunk, right after the nonce and inside the final chunk.
+func (m *monitor) checkEndCoverage() {
+	m.mu.Lock()
+	defer m.mu.Unlock()
+	var missing []string
+	for _, end := range allEnds {
+		for _, t := range []string{"separate-call", "with-last-bytes"} {
+			for _, pos := range []string{"chunk-boundary", "mid-chunk", "right-after-nonce", "inside-final-chunk"} {
+				if m.endCover[end+"/"+t+"/"+pos] == 0 {
+					missing = append(missing, end+"/"+t+"/"+pos)
+				}
+			}
+		}
+	}
+	if len(missing) > 0 {
+		m.r.Inconclusive("end-report dimension not covered: no truncation ran for %v", missing)
+	}
 }
 
 // judgeA is oracle (a): the edited file differs from the valid file and was
